@@ -157,6 +157,11 @@ def oracle_c06(line, itoks):
     # established parks its retransmissions in the delay queue, where coap_remove_from_queue() does not look).
     ended_at = {}
     ended_ev = {}
+    prev_dump = None
+    est_now = [True] * len(sess)
+    has_x = "x" in fates
+    ka_line = any(e.split(":")[0] == "k" for e in evs)
+    pending_rule = None
     for ev, ts, dump in steps:
         f = ev.split(":")
         if f[0] in ("s", "S") and f[2] == "c" and any(SUB.match(t) and t != "sub=rej" for t in ts):
@@ -165,6 +170,35 @@ def oracle_c06(line, itoks):
             # delivered by this very event: every token of this step comes after the injection
             ended_ev[(int(f[1]), int(f[2]))] = {"a": "an ACK", "r": "a RST", "b": "an ACK (invalid code class)", "p": "an ACK (piggy-backed response)",
                                                 "q": "an ACK (with the request code 0.%02d)" % (int(f[3]) if f[0] == "q" and len(f) > 3 else 0)}[f[0]]
+        n_icmp = 0
+        # "every Confirmable accepted for sending is transmitted": an ESTABLISHED session never holds accepted messages in its
+        # delay queue while none of its messages is in flight - only the conclusion of a message in flight (ACK / RST / give-up,
+        # a keepalive ping's included) lets the next one out (Lean: m_delayed_has_pending, C08 no_idle_hold_x).  Judged after
+        # every event; not on lines with failing writes (open finding drain_break_strands_delayed, judged at the end of the run)
+        if f[0] == "h" and len(f) == 2 and int(f[1]) < len(est_now):
+            est_now[int(f[1])] = False
+        elif f[0] in ("u", "f") and len(f) == 2 and int(f[1]) < len(est_now):
+            est_now[int(f[1])] = True
+        if not has_x and f[0] != "h":
+            ca_d, dq_d, q_d = dump
+            for s_ in range(len(sess)):
+                if est_now[s_] and s_ < len(dq_d) and dq_d[s_] > 0 and not any(nd[0] == s_ for nd in q_d):
+                    waiting = [m_ for (s2, m_) in accepted if s2 == s_ and subs.get((s_, m_), 0) == 1 and (s_, m_) not in txs
+                               and (s_, m_) not in outcome] + \
+                              ([int(f[3])] if f[0] in ("s", "S") and f[2] == "c" and int(f[1]) == s_ and subs.get((s_, int(f[3])), 0) == 1
+                               and (s_, int(f[3])) not in txs and any(SUB.match(t) and t != "sub=rej" for t in ts) else [])
+                    if waiting:
+                        pending_rule = ("after `%s`: Confirmable %d of established session %d was accepted by coap_send() and has never been "
+                                        "transmitted - it waits in the delay queue (%d message(s)) although NONE of the session's messages is in "
+                                        "flight (no node of the session in the send queue, con_active = %s): nothing will ever release it" % (
+                                            ev, waiting[0], s_, dq_d[s_], ca_d[s_] if s_ < len(ca_d) else "?"))
+        if f[0] == "i" and not held_evs and prev_dump is not None and dump != prev_dump and \
+                not any(TX.match(t) or TXF.match(t) or (NACK.match(t) and NACK.match(t).group(4) != "icmp") for t in ts):
+            # no retransmission / give-up fell into the I/O step after the report: nothing but the report may have happened
+            return ("the ICMP error read from the socket of session %s changes the message layer although nothing was (re)transmitted "
+                    "or concluded: con_active / delay queues / send queue were %s and are %s - an ICMP report leaves in-flight "
+                    "counts, held messages, deadlines and retransmission counters alone" % (f[1], prev_dump, dump))
+        prev_dump = dump
         for t in ts:
             m = TX.match(t) or TXF.match(t)
             if m:
@@ -195,6 +229,24 @@ def oracle_c06(line, itoks):
                     txs.setdefault((s, mid), []).append(tm)
                 continue
             m = NACK.match(t)
+            if m and m.group(4) == "icmp":
+                # an ICMP error read from the socket is REPORTED (reason ICMP_ISSUE), it is not an outcome: the message
+                # stays queued, keeps its schedule and still ends in exactly one of ACK / RST / TOO_MANY_RETRIES
+                n_icmp += 1
+                if f[0] != "i":
+                    return "an ICMP_ISSUE report at t=%s during `%s`: no ICMP error was read from a socket" % (m.group(2), ev)
+                if n_icmp > 1:
+                    return ("the ICMP error read from the socket of session %s at t=%s is reported %d times: it is reported once, about "
+                            "the first message of the session waiting for its acknowledgement" % (f[1], m.group(2), n_icmp))
+                if m.group(1) == "nack":
+                    s, mid = int(m.group(3)), int(m.group(5))
+                    if subs.get((s, mid), 0) == 1 and (s, mid) in outcome:
+                        return ("the ICMP error at t=%s is reported about message %d of session %d, which had its outcome (%s) before" % (
+                            m.group(2), mid, s, outcome[(s, mid)]))
+                    if subs.get((s, mid), 0) == 1 and (s, mid) in accepted and (s, mid) not in txs:
+                        return ("the ICMP error at t=%s is reported about Confirmable %d of session %d, which has never been transmitted "
+                                "(it is waiting in the delay queue): nothing sent for it can have caused the error" % (m.group(2), mid, s))
+                continue
             if m and m.group(1) == "nack":
                 s, reason, mid = int(m.group(3)), m.group(4), int(m.group(5))
                 if subs.get((s, mid), 0) != 1:
@@ -209,13 +261,15 @@ def oracle_c06(line, itoks):
                     n = len(txs.get((s, mid), []))
                     if s < len(sess) and n != sess[s][4] + 1 and not held_evs:
                         return "TOO_MANY_RETRIES for message %d after %d transmissions, MAX_RETRANSMIT is %d" % (mid, n, sess[s][4])
+    if pending_rule:
+        return pending_rule
     for (s, mid), ts in txs.items():
         if subs.get((s, mid), 0) != 1 or s >= len(sess):
             continue
         p = sess[s]
         if len(ts) - 1 > p[4]:
             return "message %d of session %d is retransmitted %d times, MAX_RETRANSMIT is %d" % (mid, s, len(ts) - 1, p[4])
-        if not punctual or len(ts) < 2:
+        if not punctual or len(ts) < 2 or ka_line:      # keepalive clamps the retransmission delay (outside D7: ping_timeout = 0)
             continue
         q = lambda i, f: 64 * i + (64 * f + 500) // 1000
         if q(p[0], p[1]) >= 65536 or q(p[2], p[3]) >= 65536:
@@ -238,7 +292,7 @@ def c06_end_of_run(sess, evs, steps, accepted, arrivals, last_arrival, subs, txs
     send queue) and every reply the scripted peer ever sent has been delivered.  From there on nothing will happen any
     more, so every accepted Confirmable - one that was held back by NSTART included - must be concluded: a message for
     which no ACK / RST / response ever arrived can only have been concluded by a NACK-handler call."""
-    if not steps or any(e.split(":")[0] in ("i", "k") for e in evs):
+    if not steps or any(e.split(":")[0] == "k" for e in evs):
         return None
     ev, ts, (ca, dq, q) = steps[-1]
     if ev.split(":")[0] not in ("g", "n", "t"):
